@@ -31,6 +31,7 @@ def inputs(ctx, tool):
 
 def run(ctx):
     rng = ctx.rng
+    perturbed(ctx)
     policies = [["eager"], ["block", "2"], ["block", "64"], ["readall"]]
     for tool, base in (("cache", ["cache"]), ("foldfilter", ["foldfilter", "-w", "30"]), ("b64filter", ["b64filter"])):
         for label, lines in inputs(ctx, tool):
@@ -60,7 +61,35 @@ def run(ctx):
                     break
 
 
+def perturbed(ctx):
+    """pin legal but unusual schedules with the LD_PRELOAD delay shim (nothing dropped or reordered): the feeder sleeps after
+    every write to the child / the collector sleeps before every read from it."""
+    import subprocess, sys
+    shim = os.path.join(ctx.bdir, "harness", "faults_preload.so")
+    text = b"hello world foo bar\nsecond, line - here\nthird\n"
+    b64 = b"".join(base64.b64encode(l + b"\n") + b"\n" for l in text.split(b"\n")[:-1])
+    for tool, argv, data in (("cache", ["cache"], text), ("foldfilter", ["foldfilter", "-w", "8"], text), ("b64filter", ["b64filter"], b64)):
+        for var in ({"PV_DELAY_AFTER_WRITE_US": "120000"}, {"PV_DELAY_BEFORE_READ_US": "60000"}):
+            env = pvlib.san_env(dict(var, LD_PRELOAD=shim, PV_DELAY_ONLY=tool))
+            env["ASAN_OPTIONS"] += ":verify_asan_link_order=0"
+            st, out, err = pvlib.run_tool([ctx.bin(argv[0])] + argv[1:] + ["cat"], data, env=env, timeout=40)
+            ctx.count("wrapper-perturbed-schedule", 1, [(tool, tuple(var.items()))])
+            if st != 0 or out != data:
+                what = "did not terminate" if st == "HANG" else f"status {st}, {len(out)} of {len(data)} output bytes"
+                pvlib.report_violation(ctx, f"wrapper-sched:{tool}:{list(var)[0]}", {
+                    "argv": argv + ["cat"], "stdin_hex": hx(data), "env": dict(var, LD_PRELOAD="harness/faults_preload.so", PV_DELAY_ONLY=tool), "status": st,
+                    "stderr": err.decode(errors="replace")[-300:]},
+                    summary=f"{tool} cat under a legal schedule ({list(var.items())[0][0]}={list(var.items())[0][1]}): {what}")
+
+
 def replay(ctx, rp):
+    if "env" in rp:
+        shim = os.path.join(ctx.bdir, "harness", "faults_preload.so")
+        env = pvlib.san_env(dict(rp["env"], LD_PRELOAD=shim))
+        env["ASAN_OPTIONS"] += ":verify_asan_link_order=0"
+        st, out, err = pvlib.run_tool([ctx.bin(rp["argv"][0])] + rp["argv"][1:], pvlib.unhx(rp["stdin_hex"]), env=env, timeout=40)
+        print("status", st, "stdout", out, err[-300:])
+        return
     if "argv" in rp:
         argv = rp["argv"]
         i = argv.index("python3")
